@@ -246,6 +246,20 @@ func checkKey(seed [32]byte, index uint64) error {
 	if a, b := types.StandardUnlockHash(k1.PublicKey()), types.StandardUnlockHash(pk); a != b {
 		return fmt.Errorf("address mismatch %v %v", a, b)
 	}
+	// a returned key is the caller's: wiping it (what a careful caller does
+	// after signing) must not change what the same seed and index derive next
+	for i := range k1 {
+		k1[i] = 0
+	}
+	if !bytes.Equal(k2, want) {
+		return fmt.Errorf("KeyFromSeed(%x,%d): wiping one returned key changed another returned key (shared memory)", seed, index)
+	}
+	for i := range k2 {
+		k2[i] ^= 0xA5
+	}
+	if k3 := wallet.KeyFromSeed(&seed, index); !bytes.Equal(k3, want) {
+		return fmt.Errorf("KeyFromSeed(%x,%d) after the caller wiped the keys returned earlier = %x, reference %x", seed, index, []byte(k3), []byte(want))
+	}
 	return nil
 }
 
